@@ -853,7 +853,13 @@ def get_evid(model: Model):
     else:
         return model.dataset[eventcols[0].name]
     mdv = get_mdv(model)
-    return mdv.rename('EVID')
+    evid = mdv.rename('EVID')
+    try:
+        dose = di.typeix['dose'][0].name
+    except IndexError:
+        return evid
+    # A record that is neither an observation nor a dose is an other-type event
+    return evid.where((evid == 0) | (model.dataset[dose] != 0), other=2)
 
 
 def get_admid(model: Model):
